@@ -35,6 +35,8 @@ Decides:
                    construct() returned - the shell stubs pass the revision marker as an ITEM, Args knows nothing of it beforehand.
  K registry / B window  run_inner hands the tokenizer the shorts of the parser's own meta plus the help/version shorts as FLAGS (shared with C02); inside
                         adjacent groups the window is the run of present items (shared with C19).
+ V version configured  a `version` annotation of the derive API ends up as .version(..) on the OptionParser of the same level, for `options` and for
+                        `command` alike (shared with C17).
 Does not decide: which of several failing fields is reported for a given line."""
 import re
 from core import *
@@ -47,7 +49,7 @@ import scopes, c06
 LEVEL = 'other'
 EXPLANATION = __doc__
 ASSUMPTIONS = ['the help item is an ordinary Long/Short item (tokenizer, C02/C09)']
-FLOORS = {'R.returns': 6, 'H.help-first': 3, 'P.payload': 3, 'I.info': 4, 'A.ambiguity': 2, 'T.combine': 289, 'B.best-effort': 2, 'F.final': 10, 'S.sequential': 3, 'C.command-outcome': 2, 'D.deeper-outcome': 8, 'K.tokenized-as-flag': 2}
+FLOORS = {'R.returns': 6, 'H.help-first': 3, 'P.payload': 3, 'I.info': 4, 'A.ambiguity': 2, 'T.combine': 289, 'B.best-effort': 2, 'F.final': 10, 'S.sequential': 3, 'C.command-outcome': 2, 'D.deeper-outcome': 8, 'K.tokenized-as-flag': 2, 'V.version-configured': 3}
 
 def run(ctx):
     cfgs = ['none', 'all'] if ctx.tier == 'quick' else ['none', 'all', 'ac', 'doc', 'dull']
@@ -81,6 +83,10 @@ def run(ctx):
         ctx.guard(c08.keep_only, ctx, lambda: c06.k5(ctx, cfg, fs), lambda o: 'failure-is-returned' in o.key or 'loop-stops-on-failure' in o.key, 'F.final')
         ctx.guard(c08.keep_only, ctx, lambda: c09.tokenizer(ctx, cfg, fs), lambda o: 'marker-' in o.key, 'K.tokenized-as-flag')
     ctx.guard(sequential, ctx)
+    # "when a version was configured": through the derive API too - a version annotation reaches the OptionParser of the level it is written
+    # on, in options mode and in command mode (translation validation members of C17 that carry a version)
+    import c17
+    ctx.guard(c17.members_agree, ctx, 0, 'V.version-configured', lambda mod, kind, name: 'version' in mod or mod == 'b_docs')
 
 def describe_return(b, i, k, st):
     """classify an assignment to _0 in run_subparser"""
@@ -146,7 +152,7 @@ def returns(ctx, cfg, fs):
            'the error is rendered only on the Err edge of the help/version lookup: %s' % ok, where=rn.where(), cfg=cfg)
     sid = scopes.state_id(b, ie.args[1], ie.bb)
     ctx.ob('H.help-first', 'run_subparser:lookup-on-caller-state', sid == 'args' and b.dominates(ev.bb, ie.bb),
-           'the lookup runs on the same state the inner parser left behind (%s), after the inner parser' % sid, where=ie.where(), cfg=cfg)
+           'the lookup runs on the same state the inner parser left behind (%s), after the inner parser' % (sid,), where=ie.where(), cfg=cfg)
     # the help/version Ok edge produces Stdout on every path (no path from Ok edge to the rendered error or Ok)
     okt = sw.target('Ok') if sw is not None else None
     good = okt is not None
